@@ -7,7 +7,11 @@ from __future__ import annotations
 
 import glob
 import io
+import json
 import os
+import select
+import signal
+import time
 import struct
 import zipfile
 
@@ -227,7 +231,7 @@ def _touches(faults, consumed, n):
 
 def run_case(kind, name, data, faults, src=None):
     store = store_for(src, data, faults) if src else apply_faults(data, faults)
-    res = iosim.parse(kind, store)
+    res = iosim.parse(kind, store, real_timeout=iosim.REAL_TIME_LIMIT_S)
     return res
 
 
@@ -290,7 +294,10 @@ def _source_bytes(src):
     return raw
 
 
-def worker(seed):
+_PROGRESS_FD = [None]
+
+
+def _worker_inproc(seed):
     core.use_repo()
     import resource
     try:
@@ -342,6 +349,9 @@ def worker(seed):
     max_ratio = 0.0
     for ci in range(CASES_PER_RUN):
         faults, kinds = draw_faults(fr, inner[0] if inner else kind, data, p["readmap"])
+        if _PROGRESS_FD[0] is not None:
+            # tell the supervisor which case is about to run (so that a stall in native code can be attributed)
+            os.write(_PROGRESS_FD[0], json.dumps({"i": ci, "src": src, "faults": faults}).encode() + b"\n")
         res = run_case(kind, name, data, faults, src)
         if inner:
             kinds = ["entry:" + k for k in kinds]
@@ -361,7 +371,13 @@ def worker(seed):
         case_digests.append(dg)
         if _touches(faults, p["consumed"], len(data)):
             nontrivial.append(dg)
-        if oc == "loop":
+        if oc == "native-stall":
+            sig = f"C35:{kind}:native-stall"
+            if sig not in problems:
+                problems[sig] = {"msg": f"{kind} parser did not return within {iosim.REAL_TIME_LIMIT_S:.0f} s of real time on {name} with "
+                                        f"faults {faults} while the step clock stayed under its budget: the time is spent in native code "
+                                        f"called from {res['where']}", "faults": faults}
+        elif oc == "loop":
             sig = f"C35:{kind}:{res['owner']}"
             if sig not in problems:
                 problems[sig] = {"msg": f"{kind} parser did not terminate on {name} with faults {faults}: no stream progress "
@@ -380,6 +396,96 @@ def worker(seed):
             "probes": probes, "faults": fired, "units": units, "nontrivial": False, "case_digests": case_digests,
             "nontrivial_digests": nontrivial, "cases": CASES_PER_RUN, "sample": sample, "case": case, "skipped": skipped,
             "extra": {"max_steps_per_input_byte_x1000": [int(max_ratio * 1000)]}}
+
+
+BATCH_TIMEOUT_S = 240.0      # one batch normally takes 1-5 s
+CASE_TIMEOUT_S = 40.0        # one parse of a <= 64 KB input normally takes milliseconds
+
+
+def _in_child(fn, args, timeout, progress=False):
+    """-> ("ok", result) | ("timeout", last progress record or None).  Child is killed on timeout."""
+    import pickle
+    r, w = os.pipe()
+    pr, pw = os.pipe()
+    pid = os.fork()
+    if pid == 0:
+        code = 0
+        try:
+            os.close(r)
+            os.close(pr)
+            if progress:
+                _PROGRESS_FD[0] = pw
+            try:
+                out = ("ok", fn(*args))
+            except HarnessError as e:
+                out = ("harness", str(e))
+            except BaseException:  # noqa
+                import traceback
+                out = ("harness", "unexpected: " + traceback.format_exc()[-800:])
+            with os.fdopen(w, "wb") as f:
+                pickle.dump(out, f, protocol=4)
+        except BaseException:  # noqa
+            code = 3
+        finally:
+            os._exit(code)
+    os.close(w)
+    os.close(pw)
+    deadline = time.monotonic() + timeout
+    chunks = []
+    prog = b""
+    done = False
+    while True:
+        left = deadline - time.monotonic()
+        if left <= 0:
+            break
+        rl, _, _ = select.select([r, pr], [], [], min(left, 1.0))
+        if pr in rl:
+            d = os.read(pr, 65536)
+            if d:
+                prog = (prog + d)[-262144:]
+        if r in rl:
+            d = os.read(r, 1 << 20)
+            if not d:
+                done = True
+                break
+            chunks.append(d)
+    if not done:
+        try:
+            os.kill(pid, signal.SIGKILL)
+        except ProcessLookupError:
+            pass
+    os.waitpid(pid, 0)
+    os.close(r)
+    os.close(pr)
+    if not done:
+        last = None
+        lines = [l for l in prog.split(b"\n") if l.strip()]
+        if lines:
+            try:
+                last = json.loads(lines[-1])
+            except ValueError:
+                last = None
+        return "timeout", last
+    kind, out = pickle.loads(b"".join(chunks))
+    if kind != "ok":
+        raise HarnessError(out)
+    return "ok", out
+
+
+def _one_parse(src, faults):
+    data = _source_bytes(src)
+    res = iosim.parse(src["parser"], store_for(src, data, faults), real_timeout=None)
+    return {k: res[k] for k in ("outcome", "steps", "where", "owner", "budget")}
+
+
+def stalls_in_native_code(src, faults, timeout=CASE_TIMEOUT_S):
+    """does this single parse fail to return within `timeout` seconds of real time although the step clock stays quiet?"""
+    st, out = _in_child(_one_parse, (src, faults), timeout)
+    return st == "timeout"
+
+
+def worker(seed):
+    return _worker_inproc(seed)
 
 
 def digest_for_index(base, i):
@@ -404,6 +510,18 @@ def _sig_public(kind, data, faults, src):
 
 
 def minimise(case, sig):
+    if sig.endswith(":native-stall"):
+        faults = case["by_sig"][sig]
+        tests = [0]
+
+        def fails(sub):
+            tests[0] += 1
+            return stalls_in_native_code(case["src"], sub, timeout=15.0)
+        tail = [f for f in faults if f[0] == "adler"]
+        body = [f for f in faults if f[0] != "adler"]
+        if len(body) > 1:
+            body = core.ddmin(body, lambda s_: fails(s_ + tail), max_tests=8)
+        return {"seed": case["seed"], "src": case["src"], "faults": body + tail, "sig": sig}, {"shrink_runs": tests[0]}
     src = case["src"]
     data = _source_bytes(src)
     kind = src["parser"]
@@ -424,6 +542,15 @@ def minimise(case, sig):
 def write_replay(case, sig, msg, info):
     if "by_sig" in case:
         case = {"seed": case["seed"], "src": case["src"], "faults": case["by_sig"][sig], "sig": sig}
+    if sig.endswith(":native-stall"):
+        if not stalls_in_native_code(case["src"], case["faults"]):
+            return None
+        payload = {"property": PROP, "engine": "iosim", "seed": case["seed"], "config": {"real_time_limit_s": CASE_TIMEOUT_S},
+                   "source": case["src"], "faults": case["faults"], "ops": [["parse", case["src"]["parser"]]], "decisions": [],
+                   "violation": {"class": "non-termination", "signature": sig, "message": msg},
+                   "digest": core.digest_of([sig]), "clock": {"note": "real-time back-stop: native code is invisible to the step clock"},
+                   "minimised_from": info}
+        return core.write_replay(PROP, "%s-%016x" % (sig.replace(":", "_"), case["seed"]), payload)
     data = _source_bytes(case["src"])
     got, res = core.isolated(_sig_public, case["src"]["parser"], data, case["faults"], case["src"])
     if got != sig:
@@ -450,6 +577,10 @@ def run(tier):
 
 def replay(path):
     def rerun(rp):
+        want = rp["violation"]["signature"]
+        if want.endswith(":native-stall"):
+            hit = stalls_in_native_code(rp["source"], rp["faults"])
+            return ({want} if hit else set()), core.digest_of([want]), ["stalled in native code" if hit else "returned in time"]
         data = _source_bytes(rp["source"])
         got, res = _sig_of(rp["source"]["parser"], data, rp["faults"], rp["source"])
         return ({got} if got else set()), core.digest_of([got, res["where"]]), [f"outcome={res['outcome']} steps={res['steps']} owner={res['where']}"]
